@@ -2,7 +2,7 @@ import Micm.Model.Driver
 partial def loop (h : IO.FS.Stream) (out : IO.FS.Stream) : IO Unit := do
   let line ← h.getLine
   if line.isEmpty then return ()
-  let r := Micm.Driver.runLine line
+  let r := Micm.Driver.runLine2 line
   if !r.isEmpty then out.putStrLn r
   loop h out
 def main : IO Unit := do
